@@ -1840,6 +1840,9 @@ class Engine:
             # vacuity: the hypotheses collected on the way to this return must not be contradictory
             self.emit("cover", f"ret{n}", z3.BoolVal(True), rs.guard, frozenset(), expect="sat")
             ctx = {"old": self.entry, "result": rv}
+            for gname, gt in self.c.ghost_results.items():
+                if gname not in rs.vars:      # a local that does not exist on this return path: arbitrary
+                    rs.vars[gname] = self.mk_param(f"{gname}_undef!{next(_fresh)}", gt)
             extra = self.lemma_instances(self.c.lemmas_at.get("post", []), rs, ctx)
             for cl in self.c.ensures:
                 g = to_bool(self.ev(cl.ast, rs, True, ctx))
